@@ -66,22 +66,35 @@ def reparse_if_needed(student_code=None, report=MAIN_REPORT):
     cait = report[TOOL_NAME]
     if student_code is not None:
         if student_code in cait['cache']:
-            cait['ast'] = cait['cache'][student_code]
-            return cait
+            return _from_cache(cait, student_code)
         else:
             student_ast = _parse_source(student_code, report=report)
     else:
         student_code = report.submission.main_code
         # Have we already parsed this code?
         if student_code in cait['cache']:
-            cait['ast'] = cait['cache'][student_code]
-            return cait
+            return _from_cache(cait, student_code)
         # Try to steal parse from Source module, if available
         if report[SOURCE_TOOL_NAME]['success']:
             student_ast = report[SOURCE_TOOL_NAME]['ast']
+            cait['success'], cait['error'] = True, None
         else:
             student_ast = _parse_source(student_code, report=report)
     cait['ast'] = cait['cache'][student_code] = CaitNode(student_ast, report=report)
+    # whether THIS code parsed, for the next time it is answered from the cache
+    cait.setdefault('cache_errors', {})[student_code] = cait['error']
+    return cait
+
+
+def _from_cache(cait, student_code):
+    """
+    Makes the cached tree of `student_code` the current one, together with the
+    outcome of its parse ('success' / 'error' describe the most recent code
+    asked for, not the most recent one that had to be parsed).
+    """
+    cait['ast'] = cait['cache'][student_code]
+    cait['error'] = cait.get('cache_errors', {}).get(student_code)
+    cait['success'] = cait['error'] is None
     return cait
 
 
